@@ -468,6 +468,10 @@ type lexEnc struct{ x *lexItem }
 
 func (e lexEnc) EncodeTTLV(enc *ttlv.Encoder) { lexEncodeX(enc, e.x) }
 
+// lexWriterModified: set when a writer changed the (copy of the) value it was handed: the message is the caller's, an
+// encoding that alters it makes every later encoding of the same message carry other information.
+var lexWriterModified string
+
 func lexEncodeX(e *ttlv.Encoder, x *lexItem) {
 	switch x.kind {
 	case tree.KStruct:
@@ -485,7 +489,11 @@ func lexEncodeX(e *ttlv.Encoder, x *lexItem) {
 	case tree.KLong:
 		e.LongInteger(x.tag, x.i)
 	case tree.KBig:
-		e.BigInteger(x.tag, new(big.Int).Set(x.big))
+		v := new(big.Int).Set(x.big)
+		e.BigInteger(x.tag, v)
+		if v.Cmp(x.big) != 0 {
+			lexWriterModified = fmt.Sprintf("the big integer %s handed to the writer is %s afterwards", x.big.String(), v.String())
+		}
 	case tree.KEnum:
 		e.Enum(x.ann, x.tag, uint32(x.i))
 	case tree.KBool:
@@ -493,7 +501,11 @@ func lexEncodeX(e *ttlv.Encoder, x *lexItem) {
 	case tree.KText:
 		e.TextString(x.tag, string(x.data))
 	case tree.KBytes:
-		e.ByteString(x.tag, append([]byte{}, x.data...))
+		v := append([]byte{}, x.data...)
+		e.ByteString(x.tag, v)
+		if !bytes.Equal(v, x.data) {
+			lexWriterModified = "the byte string handed to the writer is modified by it"
+		}
 	case tree.KDate:
 		if x.tm != nil {
 			e.DateTime(x.tag, *x.tm)
@@ -1156,7 +1168,11 @@ func (e *lexEnv) writerCase(ctx *Ctx, c *lexCodec, x *lexItem, origin string, bo
 	e.seen[line] = true
 	ctx.current = line
 	nontrivial := x.size() > 1 || x.annotated() || boundary
+	lexWriterModified = ""
 	doc, p := guard("Marshal", func() []byte { return append([]byte{}, c.marshal(lexEnc{x})...) })
+	if lexWriterModified != "" {
+		e.violate(ctx, "C04", "message-unmodified", c.name+":writer-modifies-message", lexWriterModified, line)
+	}
 	if p != "" {
 		e.violate(ctx, "C04", "encoder-total", c.name+":encoder-panic:"+panicKey(p), "encoder panicked: "+p, line)
 		ctx.Add(line, "panic "+panicKey(p), nontrivial, "C04")
